@@ -74,6 +74,7 @@ func (p *Prog) scopesOfPackage(pkgShort string) []*Scope {
 			}
 			return true
 		})
+
 	}
 	return out
 }
@@ -239,6 +240,7 @@ func (s *Scope) Name2() string {
 		}
 		return true
 	})
+
 	return s.Fn.Key + "$lit" + string(rune('0'+idx))
 }
 
